@@ -207,8 +207,11 @@ def gen_op(rng, w):
         # mutation of a sparse owner: every name bound to it must see the change, no copy may
         t = rng.choice(sparse_names)
         M = w.objs[w.names[t][0]]['M']
-        if rng.random() < 0.6 and M.m * M.n > 0:
+        rr = rng.random()
+        if rr < 0.45 and M.m * M.n > 0:
             return ['sp_set', t, rng.randrange(M.m), rng.randrange(M.n), DNS.mkval(M.tc, rng)]
+        if rr < 0.75:
+            return ['sp_iadd', t, rng.choice(['+=', '-=']), SPS.gen_sparse(rng, M.tc, M.m, M.n)]
         return ['sp_scale', t, rng.choice([2.0, -1.0, 0.5, 3.0])]
     if r < 0.85:
         t = rng.choice(names)
@@ -447,6 +450,24 @@ def apply(op, w, stats, rngless=None):
         if any(vv['oid'] == oid and not vv['released'] for vv in w.views.values()):
             w.flags.add('mut_while_exported')
         return
+    if kind == 'sp_iadd':
+        if op[1] not in w.names:
+            return
+        oid, X = w.names[op[1]]
+        M = w.objs[oid]['M']
+        if not w.objs[oid]['sparse']:
+            return
+        Y = SPS.mk(op[3])
+        if Y.size != X.size or Y.typecode != X.typecode:
+            return
+        Z = X.__iadd__(Y) if op[2] == '+=' else X.__isub__(Y)
+        if Z is not X:
+            raise Mismatch('inplace-returned-new-object', 'S %s T on a sparse matrix (%d stored entries) returned a new object: other names bound to S do not see the change' %
+                           (op[2], len(M.trip)), op='sp_iadd', sparse=True)
+        # values and pattern of the sum are C16's business; here: every alias sees them, no copy does
+        M.trip = sorted(zip(list(X.I), list(X.J), list(X.V)), key=lambda t: (t[1], t[0]))
+        w.flags.add('sparse_mutation')
+        return
     if kind in ('sp_set', 'sp_scale'):
         if op[1] not in w.names:
             return
@@ -462,7 +483,9 @@ def apply(op, w, stats, rngless=None):
             M.trip = sorted([t for t in M.trip if (t[0], t[1]) != (i, j)] + [(i, j, v)], key=lambda t: (t[1], t[0]))
         else:
             c = op[2]
-            X *= c
+            Z = X.__imul__(c)
+            if Z is not X:
+                raise Mismatch('inplace-returned-new-object', 'S *= c on a sparse matrix returned a new object', op='sp_scale', sparse=True)
             M.trip = [(i, j, v * c) for i, j, v in M.trip]
         w.names[op[1]] = (oid, X)
         w.flags.add('sparse_mutation')
